@@ -66,6 +66,7 @@ struct Case {
         uint64_t seed = 1, murmur_seed = 0;
         int prefill = 0;
         int giant = 0; // 1 = the stream is the periodic giant buffer (pieces up to 2^32-1 bytes, total < 2^32)
+                       // 3 = same buffer, total >= 2^32: outside the digest's domain, memory safety of the calls only
         std::vector<Piece> pieces;
 };
 static inline J to_json(const Case &c)
@@ -112,12 +113,27 @@ static inline uint64_t gen_total(uint64_t big)
         default: return rng<uint64_t>(1, big);
         }
 }
-// giant: 0 = no, 1 = a stream just above 2^29 bytes (bit length overflows 32 bits), 2 = a stream just below 2^32 bytes
+// giant: 0 = no, 1 = a stream just above 2^29 bytes (bit length overflows 32 bits), 2 = a stream just below 2^32 bytes,
+//        3 = p carried bytes (1..1023) followed by ONE update of 2^32-q bytes, 1 <= q <= p: the 32-bit sum of the carried and
+//            the incoming length wraps to less than one block (every byte of that update is the caller's, it must only be read)
 static inline Case gen_case(const Fam &f, uint64_t big, long giant_ppm = 0, int giant = 0)
 {
         using namespace pbt;
         Case c;
         if (giant == 0 && giant_ppm > 0 && rng<long>(0, 999999) < giant_ppm) giant = 2;
+        if (giant == 3) {
+                c.fam = f.label();
+                c.seed = 1;
+                c.giant = 3;
+                c.prefill = rng<int>(0, 255);
+                if (f.kind == MH_MURMUR) c.murmur_seed = rng64(0, UINT64_MAX);
+                Piece a, b;
+                a.len = coin(1, 3) ? pick<uint64_t>({ 1, 2, 1023 }) : rng<uint64_t>(1, 1023);
+                b.len = (1ull << 32) - rng<uint64_t>(1, a.len);
+                c.pieces.push_back(a);
+                c.pieces.push_back(b);
+                return c;
+        }
         if (giant) {
                 // a stream just below 2^32 bytes in 1..4 update calls (single updates up to 2^32-1 bytes)
                 c.fam = f.label();
@@ -226,8 +242,10 @@ static inline bool execute(const Case &c, const Fam &f, pbt::Ctx &ctx, Stats &st
                         st_rng = x;
                 }
                 if (!c.giant) A.set_readonly(b);
-                R.update(b, p.len);
-                if (f.kind == MH_MURMUR) MR.update(b, p.len);
+                if (c.giant != 3) {
+                        R.update(b, p.len);
+                        if (f.kind == MH_MURMUR) MR.update(b, p.len);
+                }
                 uint64_t carried = off % 1024;
                 if (p.len && (off / 1024 != (off + p.len) / 1024)) {
                         st.cross = true;
@@ -259,6 +277,7 @@ static inline bool execute(const Case &c, const Fam &f, pbt::Ctx &ctx, Stats &st
         if (!cn.empty() && failx("canary", cn)) return false;
         st.observed.assign(dg, dg + 4 * nw);
         if (f.kind == MH_MURMUR) st.observed.insert(st.observed.end(), mg, mg + 16);
+        if (c.giant == 3) return true; // total >= 2^32: the multi-hash definition (C05) does not cover it
         std::vector<uint32_t> want = R.digest_words();
         if (memcmp(dg, want.data(), 4 * nw)) {
                 if (failx("digest", "multi-hash digest differs from the definition: total " + std::to_string(off) + " bytes in " + std::to_string(c.pieces.size()) +
